@@ -22,8 +22,8 @@
 //!
 //! Outside blocks:
 //!
-//!   negttl <soa_ttl|-> <soa_minimum> <rcode>   a real NXDOMAIN/NODATA response → `DnsError::from_response`;
-//!                                              prints the derived `negative_ttl` (RFC 2308: min of both)
+//!   fromresp <rcode> <tc> <ans> <match> <soa_ttl|-> <soa_minimum>   a real response message →
+//!                     `DnsError::from_response`: `ok` / `neg <negative_ttl>` (cacheable) / `err <rcode>`
 //!   realtime <lifetime_ms>                      implementation only (`~`): real clock, moka's own expiry
 //!                                               included — after sleeping past the lifetime nothing is served
 //!
@@ -791,7 +791,7 @@ fn exec_cc(c: &mut Cc, t: &[&str], line: &str, rec: &mut Recorder) -> Option<()>
                 if !c.cached.contains_key(&q.key()) {
                     rec.fail(idx, "served from the cache although nothing cacheable was inserted since the last clear", "");
                 }
-            } else if o == "miss" && !matches!(res, ARes::Err(_)) {
+            } else if o == "miss" && (matches!(res, ARes::Pos { .. }) || matches!(res, ARes::Neg { rcode: 0 | 3, .. })) {
                 c.cached.insert(q.key(), ());
             }
         }
@@ -874,35 +874,60 @@ pub fn exec(line: &str, ctx: &mut Ctx, rec: &mut Recorder) {
             }
             ctx.blk = Blk::None;
         }
-        ["negttl", soa_ttl, minimum, rcode] if matches!(ctx.blk, Blk::None) => {
+        ["fromresp", rcode, tc, ans, mt, soa_ttl, minimum] if matches!(ctx.blk, Blk::None) => {
             let (Ok(minimum), Ok(rcode)) = (minimum.parse::<u32>(), rcode.parse::<u16>()) else {
                 rec.stat("skipped.unparsable-or-out-of-block");
                 return;
             };
             let soa_ttl: Option<u32> = if *soa_ttl == "-" { None } else { soa_ttl.parse().ok() };
             let q = AQuery { id: 0, upper: false, ty: T_A };
+            let qn = mk_query(&q).name.clone();
             let mut m = Message::error_msg(0x1234, OpCode::Query, <ResponseCode as From<u16>>::from(rcode));
             m.add_query(mk_query(&q));
+            m.metadata.truncation = *tc == "1";
+            if *ans == "1" {
+                // an answer that does not match the query: `contains_answer` only asks for a non-empty section
+                m.answers.push(mk_rec(&ARec { ty: T_TXT, ttl: 30, pid: 9 }));
+            }
             m.authorities.push(mk_rec(&ARec { ty: T_NS, ttl: 5, pid: 1 }));
             if let Some(t) = soa_ttl {
                 let mut soa = mk_soa(2);
                 soa.minimum = minimum;
                 m.authorities.push(Record::from_rdata(name("r", 2), t, RData::SOA(soa)));
+                // a second SOA must be ignored (`.next()` takes the first)
+                m.authorities.push(Record::from_rdata(name("r", 3), 1, RData::SOA(mk_soa(3))));
+            }
+            // near misses of "query type and owner name": other name / other type
+            m.additionals.push(mk_rec(&ARec { ty: T_A, ttl: 7, pid: 4 }));
+            m.additionals.push(Record::from_rdata(qn.clone(), 7, mk_rdata(T_AAAA, 5)));
+            if *mt == "1" {
+                m.additionals.push(Record::from_rdata(qn, 7, mk_rdata(T_A, 6)));
             }
             let out = catch(|| DnsResponse::from_message(m).ok().map(DnsError::from_response));
-            let (shown, got) = match &out {
-                Ok(Some(Err(DnsError::NoRecordsFound(n)))) => (format!("neg {}", show_opt(&n.negative_ttl)), Some(n.negative_ttl)),
-                Ok(_) => ("not-negative".to_string(), None),
-                Err(_) => ("panic".to_string(), None),
+            let shown = match &out {
+                Ok(Some(Err(DnsError::NoRecordsFound(n)))) => format!("neg {}", show_opt(&n.negative_ttl)),
+                Ok(Some(Err(DnsError::ResponseCode(c)))) => format!("err {}", u16::from(*c)),
+                Ok(Some(Ok(_))) => "ok".to_string(),
+                Ok(_) => "other".to_string(),
+                Err(_) => "panic".to_string(),
             };
-            let idx = rec.case(line.to_string(), shown);
-            rec.stat("op.negttl");
+            let idx = rec.case(line.to_string(), shown.clone());
+            rec.stat(&format!("op.fromresp.{}", shown.split(' ').next().unwrap_or("")));
+            if out.is_err() {
+                rec.fail(idx, "DnsError::from_response panicked", "");
+            }
+            // transient failures (SERVFAIL, REFUSED, …) must never turn into the cacheable NoRecordsFound
+            if matches!(rcode, 1 | 2 | 4 | 5 | 9) && !shown.starts_with("err") {
+                rec.fail(idx, format!("a response with error rcode {rcode} became `{shown}` instead of a non-cacheable error"), "");
+            }
             // RFC 2308 §5: the negative TTL is the minimum of the SOA's TTL and its MINIMUM field
-            let want = soa_ttl.map(|t| t.min(minimum));
-            if got != Some(want) {
-                rec.fail(idx, format!("negative_ttl derived from the response is {got:?}, RFC 2308 says {want:?}"), "");
-            } else if soa_ttl.is_some() {
-                rec.nontrivial(idx);
+            if let Some(got) = shown.strip_prefix("neg ") {
+                let want = show_opt(&soa_ttl.map(|t| t.min(minimum)));
+                if got != want {
+                    rec.fail(idx, format!("negative_ttl derived from the response is {got}, RFC 2308 says {want}"), "");
+                } else if soa_ttl.is_some() {
+                    rec.nontrivial(idx);
+                }
             }
         }
         ["realtime", ms] if matches!(ctx.blk, Blk::None) => {
@@ -1165,6 +1190,10 @@ fn gen_cc_block(r: &mut Rng) -> Vec<String> {
                 let res = match r.below(8) {
                     0 => ARes::Err(r.below(9) as u32),
                     1 | 2 => ARes::Neg { rcode: if r.chance(1, 2) { 3 } else { 0 }, nttl: Some(60), soa: Some(ARec { ty: T_SOA, ttl: 3600, pid }), auth: None, ns: None },
+                    // SERVFAIL / REFUSED *responses* (not transport errors): must never be served from the cache
+                    3 => ARes::Neg { rcode: *r.pick(&[2u16, 5, 2, 1, 4, 9]), nttl: None, soa: if r.chance(1, 2) { Some(ARec { ty: T_SOA, ttl: 3600, pid }) } else { None }, auth: None, ns: None },
+                    // NXDOMAIN without SOA: cacheable, but with the default negative minimum of 0 it is already expired at the next lookup
+                    4 => ARes::Neg { rcode: 3, nttl: None, soa: None, auth: None, ns: None },
                     _ => ARes::Pos { an: vec![ARec { ty: q.ty, ttl: *r.pick(&[3600u32, 7200, 86_400]), pid }], au: vec![], ad: vec![] },
                 };
                 lines.push(format!("cclookup {} {}", show_query(&q), show_res(&res)));
@@ -1237,9 +1266,17 @@ pub fn run(o: &Opts, rec: &mut Recorder) {
         exec(&format!("realtime {ms}"), &mut ctx, rec);
     }
     let mut r = Rng::new(o.seed);
-    for _ in 0..o.n(300, 5_000) {
-        let soa_ttl = if r.chance(1, 8) { "-".to_string() } else { gen_ttl(&mut r).to_string() };
-        let l = format!("negttl {} {} {}", soa_ttl, gen_ttl(&mut r), if r.chance(1, 2) { 3 } else { 0 });
+    for _ in 0..o.n(600, 20_000) {
+        let soa_ttl = if r.chance(1, 6) { "-".to_string() } else { gen_ttl(&mut r).to_string() };
+        let rcode = match r.below(10) {
+            0..=2 => 3,
+            3..=5 => 0,
+            6 => 2,
+            7 => 5,
+            8 => *r.pick(&[1u64, 4, 6, 7, 8, 9, 10, 16, 17, 18, 19, 20, 21, 22, 23]),
+            _ => *r.pick(&[11u64, 12, 15, 24, 100, 3841, 4095]),
+        };
+        let l = format!("fromresp {} {} {} {} {} {}", rcode, b(r.chance(1, 6)), b(r.chance(1, 5)), b(r.chance(1, 5)), soa_ttl, gen_ttl(&mut r));
         exec(&l, &mut ctx, rec);
     }
     let blocks = o.n(12_000, 300_000);
